@@ -328,6 +328,10 @@ where
     }
 
     async fn ready(&self, dependencies: &[ID]) -> Result<bool, Self::Error> {
+        // A dependency list is a set: every id counts once, no matter how often it is repeated.
+        // The query below counts each matching row once as well.
+        let dependencies: HashSet<&ID> = dependencies.iter().collect();
+
         self.tx(async |tx| {
             let sql = format!(
                 "
